@@ -46,6 +46,10 @@ struct RpdoRun : NodeEnv {
         const std::string &k = o.k; if (k == "obj" || k == "rpdocfg") return; size_t mk = w.mark(); int expSyncUpd = 0, maybeSyncUpd = 0; int expRecv = -1;
         std::map<uint8_t, uint32_t> before = val; std::vector<std::map<uint8_t, uint32_t>> alts;   // alternative images (unknown buffered frame)
         if (k == "tick") w.tick(0, (uint64_t)o.arg(0));
+        else if (k == "lost") {   // F6: the CAN driver reports an error (or nothing) for an announced RPDO / SYNC frame: nothing was received, nothing may change
+            int n = (int)(o.arg(0) % CO_RPDO_N); Frame f = o.arg(2) ? Frame(0x80, 0, {}) : Frame(R[(size_t)n].exists ? R[(size_t)n].id : 0x201, 8, o.b);
+            if (o.arg(1)) S().readErr = 1; else S().readEmpty = 1; w.rx(0, f); w.canproc(0); S().rx.clear(); S().readErr = 0; S().readEmpty = 0; cov.hit("F6-can-read-error"); expRecv = 0;
+        }
         else if (k == "nmt") { uint8_t cs = (uint8_t)o.arg(0); deliver(Frame(0, 2, {cs, 0})); int old = m; if (cs == 1) m = M_OP; else if (cs == 2) m = M_STOP; else if (cs == 128 || cs == 129 || cs == 130) m = M_PREOP;
             if (old != m) for (auto &r : R) if (r.hasNew == 1) { r.hasNew = 2; cov.hit("nmt-change-with-buffered-frame"); } if (cs == 129 || cs == 130) for (auto &r : R) r.hasNew = 0; }
         else if (k == "rcvret") { S().pdoReceiveRet = (int)o.arg(0); }
@@ -106,6 +110,7 @@ Plan gen_rpdo(Rng &r, bool thorough) {
         else if (c < 16) p.ops.push_back(Op("wr", {(int64_t)r.below((uint32_t)nobj), (int64_t)r.below(0x10000) * 65537}));
         else if (c < 18) p.ops.push_back(Op("nmt", {r.pick<int64_t>({1, 1, 2, 128, 128, 130})}));
         else if (c == 18) p.ops.push_back(Op("rcvret", {(int64_t)r.below(2)}));
+        else if (r.chance(1, 2)) { std::vector<uint8_t> b; for (int j = 0; j < 8; j++) b.push_back(r.byte()); p.ops.push_back(Op("lost", {(int64_t)r.below(4), (int64_t)r.below(2), (int64_t)r.chance(1, 3)}, b)); }
         else p.ops.push_back(Op("tick", {r.range(1, 10)}));
     }
     return p;
